@@ -149,3 +149,36 @@ Example format_agrees_instance :
   get_command_options b true = [add; add; add; help; help]
   end.
 Proof. vm_compute. repeat split; reflexivity. Qed.
+
+(* "constructing a format directly from a list of elements enforces the same rules": ArgsFormat(elements, base) either
+   fails or is a well-formed format, for every well-formed base (elements valid = every argument is required xor
+   optional, which C07's arg_normal_form gives for every constructed Argument) ... *)
+Theorem format_of_elements_wf : forall es base f,
+  match base with Some b => wf b | None => True end -> forallb el_valid es = true ->
+  format_of_elements es base = Ok f -> wf f.
+Proof. exact format_of_elements_wf_lemma. Qed.
+Print Assumptions format_of_elements_wf.
+(* ... and so is a format built on a base that was itself built by the API (what CommandConfig.build_args_format does
+   with the parent's / the application's format) *)
+Theorem stacked_formats_wf : forall ops0 ops1,
+  forallb bop_valid ops0 = true -> forallb bop_valid ops1 = true ->
+  wf (build_format (brun (empty_builder (Some (build_format (brun (empty_builder None) ops0)))) ops1)).
+Proof. exact stacked_wf_lemma. Qed.
+Print Assumptions stacked_formats_wf.
+
+(* lookup by position, for EVERY integer position (negative ones included): existence and lookup agree and both are
+   the listing's answer - position i names the i-th listed argument when 0 <= i < number of arguments and nothing
+   otherwise (NoSuchArgument; since fix c06-finished-format also for negative positions, where the code used to fall
+   through to Python's negative indexing) *)
+Theorem position_lookup_reads_the_listing : forall f i incl,
+  get_argument f (APos i) incl = match nth_arg (get_arguments f incl) i with Some a => Ok a | None => Err NoSuchArgument end /\
+  has_argument f (APos i) incl = match nth_arg (get_arguments f incl) i with Some _ => true | None => false end.
+Proof. intros. split; [apply get_argument_pos | apply has_argument_pos]. Qed.
+Print Assumptions position_lookup_reads_the_listing.
+Example negative_position_names_nothing :
+  let a1 := {| a_name := [98]%N; a_flags := 1; a_default := VNone |} in
+  let b := brun (empty_builder None) [AddArgument a1] in
+  get_argument b (APos (-1)) true = Err NoSuchArgument /\ has_argument b (APos (-1)) true = false /\
+  get_argument b (APos (-2)) true = Err NoSuchArgument /\ get_argument b (APos 0) true = Ok a1 /\
+  get_argument b (APos 1) true = Err NoSuchArgument.
+Proof. vm_compute. repeat split; reflexivity. Qed.
